@@ -6,9 +6,12 @@ package c09
 
 import (
 	"fmt"
+	"os"
+	"path/filepath"
 
 	"verif/harness/internal/core"
 	"verif/harness/internal/gen"
+	"verif/harness/internal/tlc"
 )
 
 // Prelude: projection helpers.  Strings are read back with charCodeAt loops
@@ -71,4 +74,64 @@ var Spec = &gen.Spec{
 	},
 }
 
-func Check(c *core.Ctx) (map[string]any, []string, error) { return gen.Check(c, Spec) }
+// mutation is the seeded defect of the binding self-test: the harness-side
+// adapter swaps two built-ins, so the implementation under test no longer
+// does what the specification says and the check must reject it.
+const mutation = `
+(function(){ var a = String.prototype.slice; String.prototype.slice = String.prototype.substring; String.prototype.substring = a; })();
+`
+
+// selfTest replays a random sample of the generated cases (NSel per block)
+// against the mutated adapter on a private context and returns the number of
+// cases evaluated and rejected.
+func selfTest(c *core.Ctx) (cases, rejected int64, err error) {
+	mc, err := core.NewCtx(c.Property+"-selftest", "quick")
+	if err != nil {
+		return 0, 0, err
+	}
+	mc.Seed = c.Seed
+	defer os.RemoveAll(filepath.Join(core.Root, "replays", mc.Property))
+	dump := os.Getenv("VERIF_DEBUG_DUMP")
+	os.Unsetenv("VERIF_DEBUG_DUMP")
+	defer os.Setenv("VERIF_DEBUG_DUMP", dump)
+	spec := *Spec
+	spec.Prelude = Prelude + mutation
+	spec.Runs = func(*core.Ctx) []gen.RunCfg {
+		return []gen.RunCfg{{Name: "selftest-sample", Cfg: cfg(mc, 6), Opts: tlc.Opts{Seed: c.Seed}}}
+	}
+	cov, _, err := gen.Check(mc, &spec)
+	if err != nil {
+		return 0, 0, err
+	}
+	n, _ := cov["evaluations"].(int64)
+	return n, int64(len(mc.Violations())), nil
+}
+
+func Check(c *core.Ctx) (map[string]any, []string, error) {
+	cov, assume, err := gen.Check(c, Spec)
+	if err != nil {
+		return nil, nil, err
+	}
+	n, rej, err := selfTest(c)
+	if err != nil {
+		return nil, nil, fmt.Errorf("binding self-test: %v", err)
+	}
+	if rej == 0 {
+		return nil, nil, fmt.Errorf("binding self-test: the mutated adapter (slice/substring swapped) was accepted on %d cases", n)
+	}
+	cov["binding_selftest"] = map[string]any{"mutation": "harness adapter swaps String.prototype.slice and substring",
+		"cases_sampled": n, "cases_rejected": rej}
+	nj := 20000
+	if c.Thorough() {
+		nj = 150000
+	}
+	jc, err := judge(c, nj)
+	if err != nil {
+		return nil, nil, err
+	}
+	cov["judge_direction"] = jc
+	if v, ok := cov["traces_validated_against_impl"].(int64); ok {
+		cov["traces_validated_against_impl"] = v + int64(nj)
+	}
+	return cov, assume, nil
+}
